@@ -15,6 +15,7 @@ import Driver.Monitors
 import Driver.WaitTrace
 import Driver.LruTrace
 import Driver.PoolTrace
+import Driver.RedisTrace
 
 def main (args : List String) : IO UInt32 := do
   match args with
@@ -34,4 +35,5 @@ def main (args : List String) : IO UInt32 := do
   | ["waittrace"] => Drv.run DrvWaitTrace.comp
   | ["lrutrace"] => Drv.run DrvLruTrace.comp
   | ["pooltrace"] => Drv.run DrvPoolTrace.comp
+  | ["redistrace"] => Drv.run DrvRedisTrace.comp
   | _ => IO.eprintln "usage: driver <component>"; return 2
